@@ -17,16 +17,24 @@ Inductive scase :=
 | Case (anchors : list N) (now : N) (q : query)
        (tbl : list (query * ureply))
        (ntbl : list (query * bool * list nat * N))
-       (o : obs).
+       (o : obs)
+(* server clause: proofs of the answer records, request AD / CD / DO; observed AD, SERVFAIL?, all answers kept? *)
+| CaseSrv (ps : list N) (ad cd do_ : bool) (oad osf okeep : N).
 
-(* transport form written by the harness: the same data as a stream of 32-bit numbers
-   (big-endian, 4 bytes each), packed; list = length then elements; constructors = tag then fields *)
+(* transport form written by the harness: the same data as a stream of numbers (one byte if
+   < 255, else 255 followed by 4 bytes big-endian), packed; list = length then elements;
+   constructors = tag then fields *)
 Inductive case := CaseP (p : pbytes).
 
 Fixpoint nums (bs : list N) : list N :=
   match bs with
-  | a :: b :: c :: d :: r => (((a * 256 + b) * 256 + c) * 256 + d) :: nums r
-  | _ => []
+  | [] => []
+  | x :: r =>
+      if x <? 255 then x :: nums r
+      else match r with
+           | a :: b :: c :: d :: r' => (((a * 256 + b) * 256 + c) * 256 + d) :: nums r'
+           | _ => []
+           end
   end.
 
 Definition P (A : Type) := list N -> option (A * list N).
@@ -77,9 +85,14 @@ Definition pobs : P obs :=
 Definition pnentry : P (query * bool * list nat * N) :=
   q <- pquery ;; b <- pbool ;; ps <- plist (pmap N.to_nat pnum) ;; p <- pnum ;; pret (q, b, ps, p).
 Definition pcase : P scase :=
-  an <- plist pnum ;; nw <- pnum ;; q <- pquery ;;
-  tb <- plist (k <- pquery ;; r <- pureply ;; pret (k, r)) ;;
-  nt <- plist pnentry ;; o <- pobs ;; pret (Case an nw q tb nt o).
+  tag <- pnum ;;
+  if tag =? 0 then
+    (an <- plist pnum ;; nw <- pnum ;; q <- pquery ;;
+     tb <- plist (k <- pquery ;; r <- pureply ;; pret (k, r)) ;;
+     nt <- plist pnentry ;; o <- pobs ;; pret (Case an nw q tb nt o))
+  else
+    (ps <- plist pnum ;; ad <- pbool ;; cd <- pbool ;; d <- pbool ;;
+     oa <- pnum ;; os <- pnum ;; ok <- pnum ;; pret (CaseSrv ps ad cd d oa os ok)).
 Definition decode (c : case) : option scase :=
   match c with CaseP p => match pcase (nums (unpack p)) with Some (s, []) => Some s | _ => None end end.
 
@@ -87,11 +100,7 @@ Definition pcode (p : proof) : N := match p with Secure => 0 | Insecure => 1 | B
 Definition pdecode (n : N) : proof :=
   match n with 0 => Secure | 1 => Insecure | 2 => Bogus | _ => Indet end.
 
-Fixpoint tbl_lookup (tbl : list (query * ureply)) (q : query) : ureply :=
-  match tbl with
-  | [] => UErr
-  | (q', r) :: tbl' => if query_eqb q q' then r else tbl_lookup tbl' q
-  end.
+Definition tbl_lookup := table_upstream.
 
 Definition nat_list_eqb := list_eqb Nat.eqb.
 
@@ -106,6 +115,7 @@ Definition MAXD : nat := 26.   (* DnsRequestOptions::default().max_request_depth
 
 Definition run (c : scase) : vres :=
   match c with
+  | CaseSrv _ _ _ _ _ _ _ => VErr
   | Case anchors now q tbl ntbl _ =>
       validate (tbl_lookup tbl) anchors now MAXD
                (fun q _ _ _ pos => ntbl_lookup ntbl q false pos)
@@ -134,13 +144,22 @@ Definition obs_eqb (a b : obs) : bool :=
 
 Definition is_vfuel (v : vres) := match v with VFuel => true | _ => false end.
 
+Definition b2n (b : bool) : N := if b then 1 else 0.
 Definition check_s (c : scase) : bool :=
   match c with
   | Case _ _ _ _ _ o => let v := run c in negb (is_vfuel v) && obs_eqb (obs_of v) o
+  | CaseSrv ps ad cd d oa os ok =>
+      let '(a, sf, keep) := server_map (map pdecode ps) ad cd d in
+      (b2n a =? oa) && (b2n sf =? os) && (b2n (keep || match ps with [] => true | _ => false end) =? ok)
   end.
 Definition check (c : case) : bool := match decode c with Some s => check_s s | None => false end.
 
 Definition bad (cs : list case) : list N := bad_idx check 0 cs.
 
 (* full model output for one case (used in replay files) *)
-Definition show (c : case) := match decode c with Some s => Some (s, obs_of (run s)) | None => None end.
+Definition show (c : case) :=
+  match decode c with
+  | Some (CaseSrv ps ad cd d oa os ok) => Some (CaseSrv ps ad cd d oa os ok, OErr, Some (server_map (map pdecode ps) ad cd d))
+  | Some s => Some (s, obs_of (run s), None)
+  | None => None
+  end.
